@@ -304,6 +304,18 @@ func (r *runner) runCase(cs *Case, judge bool) outcome {
 						note += "; the implementation agrees with Cfg.pinned (the C06 fixes are not in this tree)"
 					}
 				}
+				if sh, err2 := r.m.Ask(strings.Replace(line, "fixed", "shallow", 1)); err2 == nil {
+					ss := strings.Split(sh, "|")
+					var sw []string
+					for _, e := range ends {
+						if e < len(ss) {
+							sw = append(sw, ss[e])
+						}
+					}
+					if !elided && strings.Join(sw, "|") == strings.Join(snaps, "|") {
+						note += "; the implementation agrees with Cfg.shallow (copies share their inner arrays: the deep copy of C06-6 is not in this tree, C06_shallow_nested_counterexample)"
+					}
+				}
 				impl := strings.Join(snaps, "|")
 				if !oc.ImplOK {
 					impl = o.String()
